@@ -277,6 +277,148 @@ impl<const N: usize> ScenN<N> {
         true
     }
 
+    /// record layout of a blob file, parsed independently of pearl:
+    /// (record start, header size, meta size, data size) for every record
+    fn parse_blob(bytes: &[u8]) -> Vec<(usize, usize, usize, usize)> {
+        let mut out = Vec::new();
+        let mut off = 20usize;
+        let rd = |o: usize| -> Option<u64> {
+            bytes.get(o..o + 8).map(|b| u64::from_le_bytes(b.try_into().unwrap()))
+        };
+        while off < bytes.len() {
+            let klen = match rd(off + 8) {
+                Some(k) => k as usize,
+                None => break,
+            };
+            let hsz = 57 + klen;
+            let (ms, ds) = match (rd(off + 16 + klen), rd(off + 24 + klen)) {
+                (Some(m), Some(d)) => (m as usize, d as usize),
+                _ => break,
+            };
+            out.push((off, hsz, ms, ds));
+            off += hsz + ms + ds;
+        }
+        out
+    }
+
+    /// `flipsweep <budget> <seed>`: close; alter stored data bytes (single bit, whole byte, bursts up to 32 bits)
+    /// in copies of the directory, with the index kept / removed and data validation off / on; reopen and read
+    /// everything: altered bytes must never be returned by a successful read
+    fn flipsweep(&mut self, toks: &[&str]) -> String {
+        let budget: usize = toks.get(1).and_then(|x| x.parse().ok()).unwrap_or(40);
+        let mut x: u64 = toks.get(2).and_then(|x| x.parse().ok()).unwrap_or(1) | 1;
+        let mut rnd = move || {
+            x ^= x << 13;
+            x ^= x >> 7;
+            x ^= x << 17;
+            x
+        };
+        if let Some(st) = self.st.take() {
+            let r = self.rt.block_on(async { tokio::time::timeout(Duration::from_secs(60), st.close()).await });
+            if !matches!(r, Ok(Ok(()))) {
+                return "err close".into();
+            }
+        }
+        let orig = self.dir.clone();
+        let saved_validate = self.cfg.validate;
+        let copy = orig.with_file_name(format!("{}-flip", orig.file_name().unwrap().to_string_lossy()));
+        let mut blobs: Vec<PathBuf> = std::fs::read_dir(&orig)
+            .unwrap()
+            .flatten()
+            .map(|e| e.path())
+            .filter(|p| p.extension().map_or(false, |x| x == "blob"))
+            .collect();
+        blobs.sort();
+        // candidate alterations: (blob path, absolute offset, xor mask bytes)
+        let mut cands: Vec<(PathBuf, usize, Vec<u8>)> = Vec::new();
+        for bp in &blobs {
+            let bytes = std::fs::read(bp).unwrap_or_default();
+            for (start, hsz, ms, ds) in Self::parse_blob(&bytes) {
+                if ds == 0 {
+                    continue;
+                }
+                let d0 = start + hsz + ms;
+                let mut positions: Vec<usize> = if ds <= 24 { (0..ds).collect() } else {
+                    let mut v = vec![0, 1, ds / 2, ds - 2, ds - 1];
+                    for _ in 0..4 { v.push((rnd() as usize) % ds); }
+                    v
+                };
+                positions.dedup();
+                for p in positions {
+                    let r = rnd();
+                    let kind = r % 4;
+                    let mask: Vec<u8> = match kind {
+                        0 => vec![1u8 << ((r >> 8) % 8)],
+                        1 => vec![0xff],
+                        2 => vec![((r >> 8) as u8) | 1, (r >> 16) as u8, (r >> 24) as u8, ((r >> 32) as u8) | 0x80],
+                        _ => vec![((r >> 8) as u8) | 1, ((r >> 16) as u8) | 1],
+                    };
+                    let mask: Vec<u8> = mask.into_iter().take(ds - p).collect();
+                    cands.push((bp.clone(), d0 + p, mask));
+                }
+            }
+        }
+        // deterministic sample of the candidates
+        let total = cands.len();
+        let mut chosen = Vec::new();
+        if total <= budget {
+            chosen = cands;
+        } else {
+            for i in 0..budget {
+                let idx = (i * total) / budget;
+                chosen.push(cands[idx].clone());
+            }
+        }
+        let mut n = 0usize;
+        let mut bad: Option<String> = None;
+        'outer: for (ci, (bp, off, mask)) in chosen.iter().enumerate() {
+            let mode = ci % 3; // 0: index kept, 1: index removed, 2: index removed + validation on
+            Self::copy_dir(&orig, &copy);
+            let target = copy.join(bp.file_name().unwrap());
+            let mut bytes = std::fs::read(&target).unwrap();
+            for (i, m) in mask.iter().enumerate() {
+                bytes[off + i] ^= m;
+            }
+            std::fs::write(&target, &bytes).unwrap();
+            if mode >= 1 {
+                let _ = std::fs::remove_file(target.with_extension("index"));
+            }
+            self.cfg.validate = mode == 2;
+            self.dir = copy.clone();
+            n += 1;
+            let r = self.open(false);
+            if r != "ok" {
+                // init may refuse only through quarantine; a failing init is a finding for C06, reported here too
+                bad = Some(format!("{} off {} mode {}: init {}", bp.file_name().unwrap().to_string_lossy(), off, mode, r));
+                self.dir = orig.clone();
+                break 'outer;
+            }
+            let answers = self.collect_answers();
+            if let Some(st) = self.st.take() {
+                let _ = self.rt.block_on(async { tokio::time::timeout(Duration::from_secs(60), st.close()).await });
+            }
+            self.dir = orig.clone();
+            for (cmd, out) in &answers {
+                if out.contains(":?") {
+                    bad = Some(format!("{} off {} mask {:?} mode {}: `{}` served altered bytes: {}",
+                        bp.file_name().unwrap().to_string_lossy(), off, mask, mode, cmd, out));
+                    break 'outer;
+                }
+            }
+        }
+        let _ = std::fs::remove_dir_all(&copy);
+        self.dir = orig;
+        self.cfg.validate = saved_validate;
+        let r = self.open(false);
+        if r != "ok" {
+            return format!("err reopen {}", r);
+        }
+        match bad {
+            None => format!("sweep ok n={}", n),
+            Some(b) => format!("sweep bad {}", b),
+        }
+    }
+
     /// `dmgsweep <kinds|lens:<step>|bounds> [lazy]`: close, then for every index file and every damage pattern
     /// reopen a damaged copy of the directory and compare all answers with those before the close
     fn dmgsweep(&mut self, toks: &[&str]) -> String {
@@ -397,6 +539,9 @@ impl<const N: usize> ScenN<N> {
         if toks[0] == "dmgsweep" {
             return self.dmgsweep(&toks);
         }
+        if toks[0] == "flipsweep" {
+            return self.flipsweep(&toks);
+        }
         if toks[0] == "restart" || toks[0] == "close" {
             let lazy = toks.len() > 1 && toks[1] == "lazy";
             if let Some(st) = self.st.take() {
@@ -433,10 +578,11 @@ impl<const N: usize> ScenN<N> {
             Some(s) => s,
             None => return "err NoStorage".into(),
         };
+        let dir = self.dir.clone();
         let data_tab = std::mem::take(&mut self.data);
         let mut data_tab = data_tab;
         let res: Result<String, tokio::time::error::Elapsed> = self.rt.block_on(async {
-            tokio::time::timeout(Duration::from_secs(60), Self::exec_async(&mut st, &toks, &mut data_tab)).await
+            tokio::time::timeout(Duration::from_secs(60), Self::exec_async(&mut st, &dir, &toks, &mut data_tab)).await
         });
         self.data = data_tab;
         self.st = Some(st);
@@ -458,6 +604,7 @@ impl<const N: usize> ScenN<N> {
 
     async fn exec_async(
         st: &mut Storage<ArrayKey<N>>,
+        dir: &Path,
         toks: &[&str],
         data: &mut HashMap<Vec<u8>, (usize, u64)>,
     ) -> String {
@@ -637,6 +784,17 @@ impl<const N: usize> ScenN<N> {
             "alive" => {
                 Self::drain(st).await;
                 if st.verif_worker_alive() { "alive".into() } else { "dead".into() }
+            }
+            "blobsum" => {
+                let states = st.verif_blob_states().await;
+                let mut s = String::from("#blobsum");
+                for b in states {
+                    let p = dir.join(format!("t.{}.blob", b.id));
+                    let bytes = std::fs::read(&p).unwrap_or_default();
+                    let crc = crc::Crc::<u32>::new(&crc::CRC_32_ISCSI).checksum(&bytes);
+                    s.push_str(&format!(" {}:{}:{}", b.id, bytes.len(), crc));
+                }
+                s
             }
             "settle" => Self::settle(st).await,
             "states" => {
